@@ -326,6 +326,12 @@ def random_histories(res, ctx, rng):
         kinds = kinds[:6]
         # thread ids are arbitrary 64-bit words: 0 (a legal, falsy key) and the ends of the range included
         tids = [rng.choice((rng.randrange(1, 5), rng.randrange(1, 5), 0, (1 << 64) - 1, 1 << 32)) for _ in range(rng.randrange(1, 4))]
+        if h % 4 == 3:
+            # ... and coincide with keys of the OTHER key space of the pairing tables: the event id (or full debug id) of a
+            # code used in this very history
+            ids = [ev.eid(k_) if isinstance(k_, str) else k_ for k_ in kinds]
+            tids = [rng.choice(ids) | rng.choice((0, 0, 1, 2)) for _ in tids] + tids[:1]
+            res.count('random_histories_with_thread_ids_equal_to_event_ids')
         n = rng.randrange(2, 61)
         history = []
         opened = []
